@@ -104,7 +104,7 @@ def report_case(ctx, case, props, *, nontrivial, classes=None, extra_monitors=()
         sample = sample_of(run, case) if sample_of else {"case": _compact(case), "invocations": [i.get("outcome") for i in run.invocations],
                                                          "final": (run.final or {}).get("status")}
     ctx.case(nontrivial_key=key, classes=cl, sample=sample)
-    if any(i.get("outcome") == "step_cap" for i in run.invocations):
+    if any(i.get("outcome") == "step_cap" or i.get("slow_but_progressing") for i in run.invocations):
         ctx.inconclusive += 1
     vs = own(run, props)
     other = {v["property"] for v in run.violations if v["property"] not in props}
